@@ -78,6 +78,12 @@ fn random_plan(g: &mut G, allow_per_test_cfg: bool, finite_limit: bool) -> Plan 
         if allow_per_test_cfg && g.chance(10) && plan.cfg.timeout_ns.is_none() && plan.fate != Fate::Detached {
             plan.cfg.timeout_ns = Some(*g.pick(&[500 * MS, 2 * SEC, 20 * SEC]));
         }
+        if allow_per_test_cfg && g.chance(8) && plan.fate != Fate::Detached {
+            plan.cfg.wait = Some(Wait {
+                timeout_ns: *g.pick(&[100 * MS, 2 * SEC, 10 * SEC, 100 * SEC]),
+                path: if g.chance(30) { Some("never-there.flag".into()) } else { None },
+            });
+        }
         return plan;
     }
 }
